@@ -359,6 +359,10 @@ def run(rep):
                 det = str(got) + " " + show(m)
         rep.check(ok, "MATCH-AHEAD", "MATCH-AHEAD/loop", site, "for v in literal.chars(): next()==Some(c) with v != c => false; None => false; otherwise continue", det)
         rep.check(lit(b.get("expr")) == ("bool", True), "MATCH-AHEAD", "MATCH-AHEAD/true", site, "falls through to true", show(b.get("expr")) if b.get("expr") else "-")
+    # "redundant parentheses never change a verdict": a parenthesised and/or chain is a binary tree where the flat one is a group, so
+    # the binary and the group form of each connective have to agree (evaluated on the extracted solver model, shared with C06)
+    import core
+    core.import_rules(rep, "c06", {"TRI-NOT", "TRI-AND", "TRI-OR"})
     rep.floor("T-KEYWORD", 31)
     rep.floor("MATCH-AHEAD", 3)
     rep.exhaustive = True
